@@ -644,7 +644,7 @@ class Replayer:
         pkey = ()
         # histories handed over as stacked arrays (make_dict variant) only in behaviours in which the caller does not go on to
         # edit single batches / the list structure of that dictionary (the model describes those edits for LISTS of batches)
-        self._allow_stack = not any(e_["l"]["op"] in ("scribble", "scribble_list", "set_current_held") and e_["l"].get("w") in ("dhist", None) for e_ in path)
+        self._allow_stack = not any(e_["l"]["op"] in ("scribble", "scribble_list", "set_current_held") for e_ in path)
         for n, e in enumerate(path):
             self.at = n
             l, want, sh = e["l"], e["v"], e["sh"]
